@@ -683,6 +683,10 @@ func validateLayout(layout Layout) error {
 		}
 
 		namesSeen[inspection.Name] = true
+
+		if err := validateInspection(inspection); err != nil {
+			return err
+		}
 	}
 	return nil
 }
